@@ -8,6 +8,7 @@ R5 Block-level cache coherence (Block.__setitem__ / serialize_var)
 R6 pod flag forwarded to delegated decoders / readers
 R7 str()-built plain-data forms agree with the field table (order, separators, no trimming)
 R8 guarded memo slots (size memo behind template guessing) are published once, complete
+R9 template dataclasses do not normalise their serialized fields on construction
 """
 from __future__ import annotations
 
@@ -1673,6 +1674,49 @@ def r8(ctx):
         ctx.ob("C09.R8", "no guarded memo slot in the codec modules", True, SERMOD)
 
 
+# ------------------------------------------------------------------------------------------ R9
+
+def r9(ctx):
+    """A dataclass that serves as a template (se.Dataclass(X) -> DataclassAdapter.decode builds X(**fields)) is the
+    decoded value itself: rewriting a serialized field while it is constructed normalises what came off the wire
+    (None -> default, trimmed text, sorted lists), and the encoder then writes the normalised form."""
+    repo = ctx.repo
+    ctx.rule("C09.R9", "template dataclasses do not rewrite their serialized fields on construction "
+                       "(__post_init__ / __init__ / __setattr__ leave spec'd fields as decoded)")
+    n = 0
+    for lst in repo.classes.values():
+        for ci in lst:
+            if not ci.module.rel.startswith("hippolyzer/lib/base/"):
+                continue
+            if not any((ap(d.func) if isinstance(d, ast.Call) else ap(d) or "").split(".")[-1] == "dataclass"
+                       for d in ci.node.decorator_list if (ap(d.func) if isinstance(d, ast.Call) else ap(d))):
+                continue
+            fields = set()
+            for k in repo.mro(ci):
+                for st in k.node.body:
+                    if isinstance(st, ast.AnnAssign) and isinstance(st.target, ast.Name) and isinstance(st.value, ast.Call):
+                        callee = (ap(st.value.func) or "").split(".")[-1]
+                        if callee in ("dataclass_field", "bitfield_field") or callee.startswith("_") and callee.endswith("field"):
+                            fields.add(st.target.id)
+            if not fields:
+                continue
+            for meth in ("__post_init__", "__init__", "__setattr__"):
+                f = ci.methods.get(meth)
+                if f is None:
+                    continue
+                n += 1
+                bad = [st for g in class_methods_reachable(repo, f, depth=2) for st in stores(g.node, into_defs=True)
+                       if st.path.startswith("self.") and st.path.split(".")[1].replace("[]", "") in fields]
+                ctx.ob("C09.R9", f"{ci.name}.{meth}: serialized fields are left as decoded", not bad,
+                       ctx.w(f, bad[0].node) if bad else f.where,
+                       (f"`{norm(bad[0].node)}` rewrites field {bad[0].path.split('.')[1]} while the decoded value is being "
+                        f"built" if bad else "") + ": the object form no longer says what was on the wire (an absent optional "
+                       "section becomes a present default), so re-encoding produces different bytes")
+    ctx.stats["C09.R9.constructor hooks on template dataclasses"] = n
+    if n == 0:
+        ctx.ob("C09.R9", "no template dataclass customises its construction", True, "hippolyzer/lib/base")
+
+
 # ------------------------------------------------------------------------------------------ driver
 
 def run(ctx):
@@ -1688,6 +1732,7 @@ def run(ctx):
     r6(ctx)
     r7(ctx)
     r8(ctx)
+    r9(ctx)
     ctx.assume("byte-for-byte fixed points of the ~200 serializers on generated payloads and the 'printed form "
                "evaluates back' clause are not decided statically")
     ctx.assume("Python semantics encoded: enum.IntFlag(negative) / IntFlag.__or__ are not value preserving on "
